@@ -897,6 +897,11 @@ class ExprMixin:
                     r = self.cache_is_none(x)
                 elif isinstance(x, VDict):
                     r = z3.BoolVal(False)
+                elif isinstance(x, VObj) and x.cls in ("<opaque>", "<optlist>", "<map>"):
+                    # an opaque value (the result of re.search / dict.get / an env entry) may be None: unknown, but if it is
+                    # None it is falsy
+                    r = z3.Bool(f"isnone({x.ref})")
+                    self.assume_axiom(z3.Implies(r, z3.Not(z3.Bool(f"truth({x.ref})"))))
                 else:
                     r = z3.BoolVal(False)
             elif isinstance(a, VObj) and isinstance(b, VObj):
